@@ -160,15 +160,17 @@ theorem C20_namespace_page_lists_every_type (tree : NsTree) (t : CType) (ht : t 
     (hs : t.comps.getLastD [] ≠ ['_']) : tagId t ∈ entryIds tree :=
   entryIds_complete tree t ht hs
 
-/-- The back link of a type page resolves to the page of the type's own namespace, fragment = the type's entry. -/
+/-- The back link of a type page resolves to the page of the type's own namespace, fragment = the id of that
+namespace's entry, which is the first namespace entry of that page. -/
 theorem C20_back_link_resolves (t : CType) :
-    resolve (typePagePath t) (backHref t) = some (nsPagePath t.comps.dropLast, tagId t) := by
-  have e : backHref t = indexPage ++ '#' :: tagId t := rfl
+    resolve (typePagePath t) (backHref t) = some (nsPagePath t.comps.dropLast, nsId t.comps.dropLast) ∧
+    ∀ types children, nsId t.comps.dropLast ∈ nsEntryIds (.node t.comps.dropLast types children) := by
+  refine ⟨?_, fun _ _ => by simp [nsEntryIds]⟩
+  have e : backHref t = indexPage ++ '#' :: nsId t.comps.dropLast := rfl
   unfold resolve
   rw [e, splitFragment_append (by decide)]
   have h1 : indexPage ≠ [] := by decide
   have h2 : splitOn '/' indexPage = [indexPage] := by decide
-  have h3 : ¬ (indexPage = [] ∨ indexPage = ['.']) := by decide
   have h4 : indexPage ≠ ['.', '.'] := by decide
   simp [h1, h2, h4, resolveSegs, typePagePath, nsPagePath]
 
